@@ -17,11 +17,11 @@ RULE = ('detector case = (recorded history, tolerance, window, mask in set/dict/
 ASSUMPTIONS = ['comparisons within 1e-12 of the tolerance are not judged', 'measure monitors use factor measures of equal size (the monitor\'s documented layout)',
                'collapse_cost is only put through the mask idempotence check (its interval arithmetic is not specified by the property)']
 CLASSES = {
-    'detect_params': {'quick': 27000, 'thorough': 108000},
-    'detect_measures': {'quick': 14400, 'thorough': 57600},
-    'solver': {'quick': 1080, 'thorough': 4320},
-    'mask_update': {'quick': 13500, 'thorough': 54000},
-    'impose_measure': {'quick': 13500, 'thorough': 54000},
+    'detect_params': {'quick': 27000, 'thorough': 270000},
+    'detect_measures': {'quick': 14400, 'thorough': 144000},
+    'solver': {'quick': 1080, 'thorough': 10800},
+    'mask_update': {'quick': 13500, 'thorough': 135000},
+    'impose_measure': {'quick': 13500, 'thorough': 135000},
 }
 MIN_EVENTS = {'quick': {'assert:detect': 4000, 'assert:solver': 200, 'collapses_applied': 40, 'assert:mask': 2500, 'measure_constraints_applied': 1000}}
 CASE_TIMEOUT = 300
